@@ -118,6 +118,7 @@ func c03Time(g, i int) time.Time {
 func runC03(cases []string, out *bufio.Writer, _ []string) {
 	log.RegisterTimeRotation("1s", log.TimeRotation{Interval: time.Second})
 	tag := log.RegisterTag("_c03_probe")
+	tag2 := log.RegisterTag("_c03b_probe")
 	// every event carries its own time (through the TimeNow hook): different seconds, milliseconds and zones among the events in flight together
 	log.TimeNow = func(ctx context.Context) time.Time {
 		if t, ok := ctx.Value(c03TimeKey{}).(time.Time); ok {
@@ -143,6 +144,12 @@ func runC03(cases []string, out *bufio.Writer, _ []string) {
 		cfg := map[string]string{"logger.lg.type": "Logger", "logger.lg.tags": "_c03_*", "logger.lg.appenderRef.ref": "a", "appender.a.layout.type": layName,
 			"enableCaller": "false", "bufferCap": f[4]}
 		switch sink {
+		case "file2": // two loggers (one per tag), each with its own File appender, both appenders on the SAME file
+			for _, a := range []string{"a", "b"} {
+				cfg["appender."+a+".type"], cfg["appender."+a+".fileDir"], cfg["appender."+a+".fileName"] = "File", dir, "a.log"
+				cfg["appender."+a+".layout.type"] = layName
+			}
+			cfg["logger.lg2.type"], cfg["logger.lg2.tags"], cfg["logger.lg2.appenderRef.ref"] = "Logger", "_c03b_*", "b"
 		case "dual": // two appenders behind one logger, each with its own layout and its own file:line width; the caller location is on
 			cfg["appender.a.type"], cfg["appender.a.layout.type"], cfg["appender.a.layout.fileLineLength"] = "Console", "TextLayout", "48"
 			cfg["appender.b.type"], cfg["appender.b.fileDir"], cfg["appender.b.fileName"] = "File", dir, "a.log"
@@ -210,7 +217,11 @@ func runC03(cases []string, out *bufio.Writer, _ []string) {
 			go func(g int) {
 				defer wg.Done()
 				for i := 0; i < ne; i++ {
-					c03Log(context.WithValue(ctx, c03TimeKey{}, c03Time(g, i)), tag, c03Fields(g, i, size(g, i)))
+					tg := tag
+					if sink == "file2" && g%2 == 1 {
+						tg = tag2
+					}
+					c03Log(context.WithValue(ctx, c03TimeKey{}, c03Time(g, i)), tg, c03Fields(g, i, size(g, i)))
 					if sink == "rolling" && i%8 == 7 { // stretch the run over at least one real rotation boundary (1 s interval)
 						time.Sleep(time.Duration(1300*8/ne) * time.Millisecond)
 					}
@@ -255,6 +266,9 @@ func runC03(cases []string, out *bufio.Writer, _ []string) {
 				for i := 0; i < ne; i++ {
 					ev := &log.Event{Level: log.InfoLevel, Time: c03Time(g, i), File: siteFile, Line: siteLine, Tag: "_c03_probe",
 						Fields: c03Fields(g, i, size(g, i))}
+					if sink == "file2" && g%2 == 1 {
+						ev.Tag = "_c03b_probe"
+					}
 					if withCtx {
 						ev.CtxFields = []log.Field{log.String("req", "r-1"), log.Int("tenant", 42)}
 					}
